@@ -13,7 +13,7 @@ import vlib, dtrace
 
 # line kinds that are pure observations of a state D already has (dropping them loses a check, not a step)
 NEUTRAL = {
-    "proxy": {"DrainStart": "observation: the drain goroutine exists", "Released": "observation: the waiter woke up",
+    "proxy": {"DrainStart": "observation: the drain goroutine exists", "DrainWaited": "observation: the drain stopped waiting", "Released": "observation: the waiter woke up",
               "HcNotified": "a step only when the probe changed nothing", "Recv": "a step only for held requests",
               "GatePassed": "a step only for held requests", "EndInflight": "stutter when the request was already cut",
               "HcClose": "stutter for all but the first close of a dispose", "PreRet": "stutter when nothing is pending",
